@@ -125,7 +125,8 @@ def collect(prop, tier, seed, c, only=None):
         for d in st["drift"]:
             d["config"] = name
         drifts += st["drift"]
-        if m["violated"]:
+        # model violations of THIS property that are not recorded findings
+        if any(t[0].startswith(prop + ":") for mv in m.get("mviol", []) for t in mv["viol"]):
             model_unknown.append(name)
         per_config.append({"config": name, "faults": m["faults"], "states": m["states"], "transitions": m["transitions"],
                            "depth": m["depth"], "scripts": len(scripts), "events": st["events"],
